@@ -251,6 +251,15 @@ def keyLoop : Nat → Nat → V3 α → Box3 α → Nat → Nat
     -- cell += ((ix << 2) + (iy << 1) + iz) << (3 * ilevel);
     keyLoop n (ilevel + 1) p (childBox box ix iy iz) (cell + (ix * 4 + iy * 2 + iz) * 2 ^ (3 * ilevel))
 
+/-- does the loop of `get_key(level, position)` compute a child index outside `{0,1}`? -/
+def keyLoopOutOfRange : Nat → V3 α → Box3 α → Bool
+  | 0, _, _ => false
+  | n + 1, p, box =>
+    let ix := childIndex p.x box.ax box.sx
+    let iy := childIndex p.y box.ay box.sy
+    let iz := childIndex p.z box.az box.sz
+    if ix ≥ 2 ∨ iy ≥ 2 ∨ iz ≥ 2 then true else keyLoopOutOfRange n p (childBox box ix iy iz)
+
 /-- `AMRGrid::get_key(level, position)`: key of the (possibly virtual) cell on `level` that
 contains the position; does not look at the tree -/
 def gridKeyAtLevel (g : Grid) (b : Box3 α) (level : Nat) (p : V3 α) : Nat :=
